@@ -28,12 +28,14 @@ type c14Call struct {
 	Resp     int    `json:"resp"`              // which response object the wrapped call returns (0 = nil)
 	Classify int    `json:"classify"`          // custom classifier's answer: 0 success, 1 ignore, 2 dropped
 	Code     int    `json:"code"`              // custom limit-exceeded classifier's status code
+	Same     bool   `json:"same,omitempty"`    // stream: this operation runs on the same wrapped stream (same handler invocation) as the previous one
 	ExcErr   int    `json:"exc_err,omitempty"` // error the custom limit-exceeded classifier returns next to the code: 0 plain, 1 a gRPC status error carrying another code, 2 such a status error wrapped with %w
 }
 
 type c14Case struct {
 	Kind           string    `json:"kind"` // server | client | stream
 	CustomLimiter  bool      `json:"custom_limiter"`
+	Chained        bool      `json:"chained,omitempty"`       // stream: the interceptor under test runs inside another (all-default) stream interceptor of the package, i.e. it is handed an already wrapped stream
 	StreamCustom   string    `json:"stream_custom,omitempty"` // stream + custom_limiter: "" both limiters configured | recv | send: only that one (the other stays the default)
 	CustomClass    bool      `json:"custom_classifier"`
 	CustomExceeded bool      `json:"custom_exceeded"`
@@ -50,6 +52,9 @@ func genC14(t *rapid.T) c14Case {
 		CustomExceeded: rapid.Bool().Draw(t, "ce"),
 		Named:          rapid.Bool().Draw(t, "named"),
 	}
+	if c.Kind == "stream" {
+		c.Chained = rapid.IntRange(0, 3).Draw(t, "chained") == 0
+	}
 	if c.Kind == "stream" && c.CustomLimiter {
 		c.StreamCustom = rapid.SampledFrom([]string{"", "", "recv", "send"}).Draw(t, "streamCustom")
 	}
@@ -62,6 +67,7 @@ func genC14(t *rapid.T) c14Case {
 			Classify: rapid.IntRange(0, 2).Draw(t, "classify"),
 			Code:     rapid.IntRange(1, 16).Draw(t, "code"),
 			ExcErr:   rapid.SampledFrom([]int{0, 0, 1, 2}).Draw(t, "excErr"),
+			Same:     rapid.Bool().Draw(t, "same"),
 		}
 	})
 	c.Calls = rapid.SliceOfN(call, 1, 20).Draw(t, "calls")
@@ -145,6 +151,7 @@ func runC14(_ *testing.T, c c14Case) (out kit.Outcome) {
 		serverI grpc.UnaryServerInterceptor
 		clientI grpc.UnaryClientInterceptor
 		streamI grpc.StreamServerInterceptor
+		outerI  grpc.StreamServerInterceptor
 	)
 	switch c.Kind {
 	case "server", "client":
@@ -195,9 +202,23 @@ func runC14(_ *testing.T, c c14Case) (out kit.Outcome) {
 		}
 		opts = permuteOpts(opts, c.OptOrder)
 		streamI = gcl.StreamServerInterceptor(opts...)
+		outerI = gcl.StreamServerInterceptor()
 	}
 
-	var sawRefusal, sawGrant, sawNonSuccess, sawRecv, sawSend bool
+	var sawRefusal, sawGrant, sawNonSuccess, sawRecv, sawSend, sawSameStream bool
+	var (
+		liveSS    grpc.ServerStream // the wrapped stream of the handler invocation in progress (several operations on one stream)
+		liveInner *c14Stream
+	)
+	info := &grpc.StreamServerInfo{FullMethod: "/svc/S"}
+	// runStream invokes the interceptor under test - directly, or (chained) from inside the handler of an outer,
+	// all-default stream interceptor of the same package, which hands it an already wrapped stream.
+	runStream := func(inner *c14Stream, h grpc.StreamHandler) error {
+		if !c.Chained {
+			return streamI(nil, inner, info, h)
+		}
+		return outerI(nil, inner, info, func(srv interface{}, ss grpc.ServerStream) error { return streamI(srv, ss, info, h) })
+	}
 	check := func(i int) *kit.Outcome {
 		call := c.Calls[i]
 		cur = call
@@ -222,15 +243,23 @@ func runC14(_ *testing.T, c c14Case) (out kit.Outcome) {
 			})
 		case "stream":
 			limName = call.Dir
+			op := func(ss grpc.ServerStream) error {
+				if call.Dir == "recv" {
+					return ss.RecvMsg("m")
+				}
+				return ss.SendMsg("m")
+			}
+			if liveSS != nil {
+				// inside a handler that performs several operations on one wrapped stream
+				liveInner.err = wantErr
+				gotErr = op(liveSS)
+				break
+			}
 			inner := &c14Stream{log: log, err: wantErr}
 			handlerRan := false
-			herr := streamI(nil, inner, &grpc.StreamServerInfo{FullMethod: "/svc/S"}, func(srv interface{}, ss grpc.ServerStream) error {
+			herr := runStream(inner, func(srv interface{}, ss grpc.ServerStream) error {
 				handlerRan = true
-				if call.Dir == "recv" {
-					gotErr = ss.RecvMsg("m")
-				} else {
-					gotErr = ss.SendMsg("m")
-				}
+				gotErr = op(ss)
 				return gotErr
 			})
 			if !handlerRan {
@@ -350,13 +379,48 @@ func runC14(_ *testing.T, c c14Case) (out kit.Outcome) {
 		}
 		return nil
 	}
-	for i := range c.Calls {
-		if o := check(i); o != nil {
-			return *o
+	for i := 0; i < len(c.Calls); {
+		j := i + 1
+		for c.Kind == "stream" && j < len(c.Calls) && c.Calls[j].Same {
+			j++
 		}
+		if j == i+1 {
+			if o := check(i); o != nil {
+				return *o
+			}
+			i = j
+			continue
+		}
+		// operations i..j-1 run on one wrapped stream, inside one handler invocation
+		sawSameStream = true
+		var viol *kit.Outcome
+		var last error
+		liveInner = &c14Stream{log: log}
+		herr := runStream(liveInner, func(srv interface{}, ss grpc.ServerStream) error {
+			liveSS = ss
+			defer func() { liveSS = nil }()
+			for k := i; k < j && viol == nil; k++ {
+				viol = check(k)
+			}
+			last = errors.New("handler result")
+			return last
+		})
+		if viol != nil {
+			return *viol
+		}
+		if herr != last {
+			return kit.Viol("stream:result", "interceptor changed the handler's result")
+		}
+		i = j
+	}
+	if sawSameStream {
+		out.Labels = append(out.Labels, "several-ops-on-one-stream")
+	}
+	if c.Chained {
+		out.Labels = append(out.Labels, "chained-interceptors")
 	}
 	out.NonTrivial = sawRefusal && sawGrant && sawNonSuccess && (c.Kind != "stream" || (sawRecv && sawSend))
-	out.Labels = []string{"kind:" + c.Kind, fmt.Sprintf("custom-limiter:%v", c.CustomLimiter)}
+	out.Labels = append(out.Labels, "kind:"+c.Kind, fmt.Sprintf("custom-limiter:%v", c.CustomLimiter))
 	if c.StreamCustom != "" {
 		out.Labels = append(out.Labels, "stream-one-limiter-configured")
 	}
